@@ -209,7 +209,7 @@ impl Check for SsSwapPure {
             .boxed()
     }
     fn cases(&self, tier: Tier) -> u32 {
-        tier.pick(200_000, 20_000_000)
+        tier.pick(200_000, 10_000_000)
     }
     fn min_nontrivial(&self) -> f64 {
         0.05
@@ -399,7 +399,7 @@ impl Check for SsMintPure {
             .boxed()
     }
     fn cases(&self, tier: Tier) -> u32 {
-        tier.pick(150_000, 15_000_000)
+        tier.pick(150_000, 8_000_000)
     }
     fn min_nontrivial(&self) -> f64 {
         0.05
@@ -582,7 +582,7 @@ impl Check for SsPoolHistory {
             .boxed()
     }
     fn cases(&self, tier: Tier) -> u32 {
-        tier.pick(12_000, 1_000_000)
+        tier.pick(12_000, 500_000)
     }
     fn min_nontrivial(&self) -> f64 {
         0.02
